@@ -44,6 +44,89 @@ func appendSites(fn *ssa.Function) []appendSite {
 	return out
 }
 
+// dmLibrarySearch: the size search written as idx := slices.IndexFunc(codeSizes, func(s) bool {...})
+// in EncodeWithColor or an unexported helper. Returns the value that is the chosen size in
+// EncodeWithColor.
+func dmLibrarySearch(c *Ctx, R8 string, fn *ssa.Function, n *Normer) (ssa.Value, bool) {
+	var site *DeepSite
+	c.P.deepEach(fn, 2, func(s DeepSite) {
+		call, ok := s.Ins.(*ssa.Call)
+		if !ok || site != nil || call.Common().StaticCallee() == nil || len(call.Common().Args) != 2 {
+			return
+		}
+		o := call.Common().StaticCallee().Origin()
+		if o == nil || o.Pkg == nil || o.Pkg.Pkg.Path() != "slices" || o.Name() != "IndexFunc" {
+			return
+		}
+		if NewNormer(c.P).Norm(call.Common().Args[0]).asAtom() != "global:datamatrix.codeSizes" {
+			return
+		}
+		cp := s
+		site = &cp
+	})
+	if site == nil {
+		return nil, false
+	}
+	call := site.Ins.(*ssa.Call)
+	F := site.Fn
+	c.Fn(c.P.FuncName(F))
+	c.Check(R8, "datamatrix.EncodeWithColor/ascending", call.Pos(), true, "rows visited in table order from index 0 (slices.IndexFunc)", "true")
+	pv := call.Common().Args[1]
+	if ct, ok := pv.(*ssa.ChangeType); ok {
+		pv = ct.X
+	}
+	mc, ok := pv.(*ssa.MakeClosure)
+	if !ok || len(mc.Fn.(*ssa.Function).Params) != 1 {
+		c.Undecided(R8, "datamatrix.EncodeWithColor/first-fit-guard", call.Pos(), "the predicate is not a function literal of one row")
+		return nil, true
+	}
+	pred := mc.Fn.(*ssa.Function)
+	c.Fn(c.P.FuncName(pred))
+	saved := n.Ctx
+	n.Ctx = site.Path
+	n.Bind[pred.Params[0]] = "s"
+	guard := cFalse
+	for _, ret := range returnsOf(pred) {
+		guard = cOr(guard, cAnd(n.ReachCond(pred, nil, ret.Block()), n.CondOf(ret.Results[0])))
+	}
+	n.Ctx = saved
+	want := cmpCond(token.GEQ, pAtom("call:datamatrix.(*dmCodeSize).DataCodewords(s)"), MustRef("len(data)"))
+	c.expectCondC(R8, "datamatrix.EncodeWithColor/first-fit-guard", pred.Pos(), guard, want)
+	// what becomes of the index: codeSizes[idx] when it is >= 0, nil otherwise
+	hn := NewNormer(c.P)
+	hn.Bind[call] = "idx"
+	found, none := cFalse, cFalse
+	okVals := true
+	for _, ret := range returnsOf(F) {
+		if F == fn {
+			break
+		}
+		rc := hn.ReachCond(F, nil, ret.Block())
+		switch v := hn.Norm(ret.Results[0]).String(); {
+		case isNilConst(ret.Results[0]):
+			none = cOr(none, rc)
+		case canonAccess(v) == "global:datamatrix.codeSizes[idx]":
+			found = cOr(found, rc)
+		default:
+			okVals = false
+		}
+	}
+	if F == fn {
+		c.Undecided(R8, "datamatrix.EncodeWithColor/first-match", call.Pos(), "library search used directly in EncodeWithColor")
+		return nil, true
+	}
+	e1, _ := CondEquivalent(found, MustRefCond("idx >= 0"))
+	e2, _ := CondEquivalent(none, MustRefCond("idx < 0"))
+	c.Check(R8, "datamatrix.EncodeWithColor/first-match", call.Pos(), okVals && e1 && e2, "codeSizes[idx] when a row fits (idx >= 0)", fmt.Sprintf("row when %s, nil when %s", found, none))
+	c.Check(R8, "datamatrix.EncodeWithColor/none-fits", F.Pos(), e2, "nil when no size fits", none.String())
+	if len(site.Path) > 0 {
+		if v, ok := site.Path[0].(ssa.Value); ok {
+			return v, true
+		}
+	}
+	return nil, true
+}
+
 func ruleDataMatrixEncoder(c *Ctx) {
 	const R5 = "D5-DM-ENCODATION"
 	c.Doc(R5, "datamatrix.encodeText (ASCII encodation): a digit pair d1 d2 becomes 130 + 10*d1 + d2 exactly when both bytes are digits and the second exists; a byte > 127 becomes (235, byte-127); any other byte becomes byte+1; the index advances by 2 / 1. addPadding: first pad 129 iff data shorter than capacity, then 129 + (149*pos mod 253 + 1), minus 254 iff above 254, with pos = current length + 1")
@@ -242,9 +325,18 @@ func ruleDataMatrixEncoder(c *Ctx) {
 				loopSite, row = &cp, call.Common().Args[0]
 			}
 		})
+		var size ssa.Value
+		haveSearch := false
 		if loopSite == nil {
-			c.Check(R8, "datamatrix.EncodeWithColor/search", fn.Pos(), false, "a search over codeSizes comparing DataCodewords()", "not found")
+			// the search handed to the library: slices.IndexFunc(codeSizes, fits) yields the index of the
+			// FIRST row that fits (or -1) by definition; what is left to check is the predicate and what is
+			// done with the index
+			size, haveSearch = dmLibrarySearch(c, R8, fn, n)
+			if !haveSearch {
+				c.Check(R8, "datamatrix.EncodeWithColor/search", fn.Pos(), false, "a search over codeSizes comparing DataCodewords()", "not found")
+			}
 		} else {
+			haveSearch = true
 			F := loopSite.Fn
 			c.Fn(c.P.FuncName(F))
 			// ascending from index 0
@@ -306,7 +398,6 @@ func ruleDataMatrixEncoder(c *Ctx) {
 				c.Check(R8, "datamatrix.EncodeWithColor/first-match", iff.Pos(), leaves && selected, "loop left at the first fitting row, which becomes the size", fmt.Sprintf("leaves=%v selected=%v", leaves, selected))
 			}
 			// the size value in EncodeWithColor
-			var size ssa.Value
 			if F == fn {
 				eachInstr(fn, func(b *ssa.BasicBlock, ins ssa.Instruction) {
 					if p, ok := ins.(*ssa.Phi); ok && namedTypeName(p.Type()) == "datamatrix.dmCodeSize" {
@@ -357,6 +448,8 @@ func ruleDataMatrixEncoder(c *Ctx) {
 				}
 				c.Check(R8, "datamatrix.EncodeWithColor/none-fits", F.Pos(), nilRet, "nil when no size fits", fmt.Sprint(nilRet))
 			}
+		}
+		if haveSearch {
 			if size == nil {
 				c.Undecided(R8, "datamatrix.EncodeWithColor/size", fn.Pos(), "selected size not found in EncodeWithColor")
 			} else {
@@ -504,6 +597,14 @@ func ruleDataMatrixEncoder(c *Ctx) {
 					}
 					return
 				}
+				// dataTail: v is data[off:] (no upper bound) - the offset, else nil
+				dataTail := func(v ssa.Value) Poly {
+					sl, ok := v.(*ssa.Slice)
+					if !ok || sl.Low == nil || sl.High != nil || sl.Max != nil || !isData(n.Norm(sl.X).String()) {
+						return nil
+					}
+					return n.Norm(sl.Low)
+				}
 				scan := func(b2 *ssa.BasicBlock, ins ssa.Instruction) {
 					st, ok := ins.(*ssa.Store)
 					if !ok || (b2.Parent() == fn && !inLoopBody(bh, b2)) {
@@ -549,8 +650,11 @@ func ruleDataMatrixEncoder(c *Ctx) {
 						eq1, _ := CondEquivalent(cond, MustRefCond("b + t*size.BlockCount < len(data)"))
 						eq2, _ := CondEquivalent(cond, cmpCond(token.LSS, pAtom("t"), pAtom("call:datamatrix.(*dmCodeSize).DataCodewordsForBlock(size,b)")))
 						c.Check(R7, "datamatrix.calcECC/gather-bound", st.Pos(), eq1 || eq2, "while b + t*BlockCount < len(data) (or t < buffer length)", cond.String())
-					case isData(n.Norm(dst.X).String()):
+					case isData(n.Norm(dst.X).String()) || dataTail(dst.X) != nil:
 						inner++
+						if off := dataTail(dst.X); off != nil {
+							dBase = pAdd(dBase, off, 1) // a view of the codewords from `off` on
+						}
 						c.Check(R7, "datamatrix.calcECC/scatter-src", st.Pos(), pEqual(sBase, pConst(0)) && pEqual(sSlope, one) && src.X == ssa.Value(call), "ecc[t]", fmt.Sprintf("%s[%s + t*(%s)]", n.Norm(src.X), sBase, sSlope))
 						c.Check(R7, "datamatrix.calcECC/scatter-dst", st.Pos(), pEqual(dBase, MustRef("len(data) + b")) && pEqual(dSlope, pAtom(BC)), "data[len + b + t*BlockCount]", fmt.Sprintf("data[%s + t*(%s)]", dBase, dSlope))
 						ecc := "call:datamatrix.(*dmCodeSize).ErrorCorrectionCodewordsPerBlock(size)"
@@ -740,12 +844,28 @@ func ruleDataMatrixEncoder(c *Ctx) {
 				c.Check(R3, "datamatrix.Set/writes", fn.Pos(), k == 2, "occupy and matrix both written at col + row*ncol", fmt.Sprint(k))
 			}
 		}
-		// bit extraction
-		eachInstr(fn, func(b *ssa.BasicBlock, ins ssa.Instruction) {
-			if bo, ok := ins.(*ssa.BinOp); ok && bo.Op == token.SHR {
-				c.expectPoly(R3, "datamatrix.Set/bit-shift", bo.Pos(), n, bo.Y, "7 - bit")
+		// bit extraction: the module written is bit (7 - bitNum) of the codeword, for each of the 8 bit
+		// numbers (a test of one bit, in whichever form it is written)
+		for _, call := range callsTo(fn, c.P.Func("utils.(*BitList).SetBit")) {
+			val := call.Common().Args[2]
+			if _, isK := val.(*ssa.Const); isK {
+				continue // the occupancy mark
 			}
-		})
+			bitP := fn.Params[4]
+			delete(n.Bind, bitP)
+			bad := ""
+			for k := int64(0); k < 8; k++ {
+				n.env = append(n.env, map[ssa.Value]Poly{bitP: pConst(k)})
+				cd := n.CondOf(val)
+				n.env = n.env[:len(n.env)-1]
+				src, bit, set, ok := singleBitTest(cd)
+				if !ok || src != "value" || bit != 7-k || !set {
+					bad += fmt.Sprintf("bitNum=%d: %s; ", k, cd)
+				}
+			}
+			n.Bind[bitP] = "bit"
+			c.Check(R3, "datamatrix.Set/bit-shift", call.Pos(), bad == "", "module = bit (7 - bitNum) of value", orOK(bad))
+		}
 	}
 	if fn := c.theFunc(R3, "datamatrix.(*codeLayout).SetValues"); fn != nil {
 		n := NewNormer(c.P)
